@@ -1,4 +1,168 @@
+"""C03, bounded part: a surviving runner polls between any two backend effects of a multi-step lifecycle operation.
+
+The deductive contracts state what holds at the exits of an operation; the window *between* two of its effects is visible to other
+runners.  This stand-in runs the real operation (recovery tasks, retry, reroute, kill-and-reroute, batch routing) on the real backends and,
+in separate runs, lets another runner poll the broker right before each of its backend effects and once after it; afterwards no invocation may
+be stranded (J: final, or available and queued, or PENDING/RUNNING under a runner that is alive).  Bounded (single preemption, small
+scenarios), never counted as proved."""
+from __future__ import annotations
+
+from pyvc.prop import BoundedResult, RunCtx
+
+EFFECTS = [("orchestrator", "_atomic_status_transition"), ("orchestrator", "increment_invocation_retries"), ("orchestrator", "_register_new_invocations"),
+           ("broker", "route_invocation"), ("broker", "route_invocations"), ("broker", "retrieve_invocation")]
+
+
 def contracts(T, reg, G, ctx):
     return []
+
+
 def lemmas(T, reg, G, ctx):
     return []
+
+
+class Cut:
+    """Counts the backend effects of the operation under test and runs `action` right before effect number `at` (once)."""
+
+    def __init__(self, app, at, action):
+        self.app, self.at, self.action, self.n, self.active, self.saved = app, at, action, 0, False, []
+
+    def __enter__(self):
+        for comp, meth in EFFECTS:
+            obj = getattr(self.app, comp)
+            real = getattr(obj, meth, None)
+            if real is None:
+                continue
+            self.saved.append((obj, meth, real))
+
+            def wrapper(*a, _real=real, **kw):
+                if self.active:
+                    self.n += 1
+                    if self.n == self.at:
+                        self.active = False        # the poller's own effects are not cut points
+                        try:
+                            self.action()
+                        finally:
+                            self.active = True
+                return _real(*a, **kw)
+            setattr(obj, meth, wrapper)
+        self.active = True
+        return self
+
+    def __exit__(self, *exc):
+        self.active = False
+        for obj, meth, real in self.saved:
+            setattr(obj, meth, real)
+        return False
+
+
+def poller_between_effects(ctx: RunCtx) -> BoundedResult:
+    import time as _time
+    from datetime import UTC, datetime
+    from pynenc import context
+    from pynenc.invocation.status import InvocationStatus as S
+    from . import verif_tasks as vt
+    from .realapp import force_status, new_invocation, real_app, runner_ctx
+    thorough = ctx.tier == "thorough"
+    res = BoundedResult("poller_between_effects", "real operations {recover_pending, recover_running, set_invocation_retry, reroute_invocations, kill-and-reroute, "
+                        "route_calls batch of 3} x a second runner polling right before effect k (every k) and after the operation, on the in-memory backend" +
+                        (" and SQLite" if thorough else "") + "; afterwards every invocation is final, or available and queued, or PENDING/RUNNING under a live runner")
+    n = 0
+    final = {"SUCCESS", "FAILED", "CONCURRENCY_CONTROLLED_FINAL"}
+    avail = {"REGISTERED", "REROUTED", "RETRY"}
+
+    def scenarios(app):
+        A, B, R = runner_ctx("runner-A-dead"), runner_ctx("runner-B"), runner_ctx("recovery-runner")
+        orch = app.orchestrator
+
+        def poll():
+            for inv in orch.get_invocations_to_run(5, B):
+                pass        # B claims what it is handed (PENDING under the live runner B)
+
+        def as_core_task(fn):
+            def run():
+                context.set_current_app(app)
+                context.set_runner_context(app.app_id, R)
+                fn()
+            return run
+        from pynenc import core_tasks
+
+        def unwrap(task):
+            return getattr(task, "func", None) or getattr(task, "__wrapped__", None) or task
+
+        def stuck(status, owner, age):
+            inv = new_invocation(app)
+            while app.broker.retrieve_invocation() is not None:      # the queue entry of the registration was consumed by the dead runner
+                pass
+            force_status(app, inv.invocation_id, status, owner, ts=datetime.fromtimestamp(_time.time() - age, UTC))
+            return inv
+
+        def s_recover_pending():
+            inv = stuck(S.PENDING, "runner-A-dead", 10_000.0)
+            return [inv], as_core_task(unwrap(core_tasks.recover_pending_invocations))
+
+        def s_recover_running():
+            inv = stuck(S.RUNNING, "runner-A-dead", 10_000.0)
+            return [inv], as_core_task(unwrap(core_tasks.recover_running_invocations))
+
+        def s_retry():
+            inv = stuck(S.RUNNING, "runner-B", 0.0)
+            return [inv], lambda: orch.set_invocation_retry(inv.invocation_id, vt.Retriable("again"), B)
+
+        def s_reroute():
+            inv = stuck(S.PENDING, "runner-B", 0.0)
+            return [inv], lambda: orch.reroute_invocations({inv.invocation_id}, B)
+
+        def s_kill():
+            inv = stuck(S.RUNNING, "runner-B", 0.0)
+            from pynenc.runner.thread_runner import ThreadRunner
+            r = ThreadRunner(app, runner_context=B)
+            return [inv], lambda: r._kill_and_reroute(inv.invocation_id)
+        return {"recover_pending": s_recover_pending, "recover_running": s_recover_running, "set_invocation_retry": s_retry,
+                "reroute_invocations": s_reroute, "kill_and_reroute": s_kill}, poll
+
+    for backend in (("mem", "sqlite") if thorough else ("mem",)):
+        names = None
+        with real_app(backend, max_pending_seconds=100.0, runner_considered_dead_after_minutes=1.0) as probe:
+            names = list(scenarios(probe)[0])
+        for name in names:
+            k = 0
+            while True:
+                k += 1
+                n += 1
+                with real_app(backend, max_pending_seconds=100.0, runner_considered_dead_after_minutes=1.0) as app:
+                    scen, poll = scenarios(app)
+                    app.orchestrator.register_runner_heartbeats(["runner-B", "recovery-runner"])
+                    try:
+                        invs, op = scen[name]()
+                        with Cut(app, k, poll) as cut:
+                            op()
+                        total = cut.n
+                        poll_after = k > total           # the last run of a scenario polls after the operation instead
+                        if poll_after:
+                            poll()
+                    except Exception as e:      # noqa: BLE001
+                        res.failures.append({"what": f"{backend}: {name}, poll before effect {k}: {type(e).__name__}: {str(e)[:120]}", "finding_key": f"{backend}:{name}:error"})
+                        break
+                    queued = []
+                    while (i := app.broker.retrieve_invocation()) is not None:
+                        queued.append(i)
+                    for inv in invs:
+                        r = app.orchestrator.get_invocation_status_record(inv.invocation_id)
+                        ok = r.status.name in final or (r.status.name in avail and inv.invocation_id in queued) or \
+                            (r.status.name in ("PENDING", "RUNNING") and r.runner_id in ("runner-B", "recovery-runner"))
+                        if not ok and len(res.failures) < 8:
+                            res.failures.append({"what": f"{backend}: {name} with a second runner polling " + ("after it" if poll_after else f"right before its backend effect #{k}") +
+                                                         f": the invocation ends {r.status.name} owner={r.runner_id} queued={inv.invocation_id in queued} (stranded)",
+                                                 "input": {"operation": name, "poll_before_effect": k}, "finding_key": f"{name}:stranded"})
+                    if k > total:
+                        break
+    res.cases = n
+    res.distinct = n
+    res.samples = [{"operation": "recover_pending", "poll_before_effect": 2}]
+    return res
+
+
+def bounded():
+    from .c08 import large_batches       # a routed batch of any size is queued completely (accepted invocations that never reach the queue are lost)
+    return [poller_between_effects, large_batches]
